@@ -132,7 +132,7 @@ CHECKS = {
              "oracle: per-step dV = (inflow - outflow)*dt + (rainfallVolume - evaporationVolume)*dt within 1e-9 relative, V >= 0, final level/area = own interpolation of the tables, clamp(demand, minRel, maxRel) at the lower/upper volume traversed bounds the outflow (with the integrator's own acceptance slack), more only as spill when the volume reached the top of the table. "
              "Non-trivial = rain/evaporation acting on a non-empty store, or a series that both spills and falls below 10%; distinct = distinct case",
         assumptions=["release-curve slopes <= 1e-4 (m^3/s)/m^3 and zero release at zero volume, so that the model's minimum sub-timestep (6 s) can follow the draw-down (otherwise the kernel panics by design)",
-                     "within a step the volume moves monotonically between its end values (constant forcing, autonomous 1-D dynamics)"],
+                     "within a step the volume moves monotonically between its end values (constant forcing, autonomous 1-D dynamics) except around an equilibrium release = net inflow, which the integrator does not resolve (absolute release tolerance 1e-4 m^3/s): there the release bounds are relaxed to the net inflow"],
         quick=dict(stages=[st(1500, run="TestStorageBalanceAndRelease", timeout=900), st(4, shards=3, run="TestStorageLongSeries", timeout=900)]),
         thorough=dict(stages=[st(70000, shards=13, run="TestStorageBalanceAndRelease", timeout=3500), st(60, shards=3, run="TestStorageLongSeries", timeout=3500)]),
     ),
